@@ -10,6 +10,7 @@
 // harness_init) below 1e-9 => violation.  The scripted sub-property feeds chosen
 // raw machine words to the bounded sampler and is exact, not statistical.
 #include "fix.hh"
+#include <set>
 #include <cmath>
 #include <climits>
 #include <iomanip>
@@ -400,4 +401,35 @@ VF_ENUM(residue_sampler, 132, 264) {
     if (bits > 1) cs.test("uniformity/" + who + "/bits=" + bs + "/single-bit-bias", "single-bit(min over bits)", worst, 2 * worst.stat, 1, (double)bits);
     cs.finish(N);
   }
+}
+
+// cached residue sampler (used for the masking exponents): a cache of n residues is filled for one modulus and handed out one by
+// one; requests for another modulus or beyond the cache are drawn freshly.  Judged: every value lies below the modulus REQUESTED
+// (a cached value of a larger modulus handed out for a smaller one is out of range with probability >= 1/2), no cached value is
+// handed out twice (moduli >= 2^64, where a repetition among <= 5000 values has probability < 1e-12), uniformity of the top bits
+VF_SUB(cached_residue_sampler, 60, 1200) {
+  const std::vector<ModSpec> &M = big_moduli(); std::vector<size_t> big; for (size_t i = 0; i < M.size(); i++) if (mpz_sizeinbase(M[i].m.get_mpz_t(), 2) > 64) big.push_back(i);
+  if (big.size() < 2) { ctx.discard(); return; }
+  const ModSpec &ms = M[big[ctx.c.index(big.size())]]; const Z &m = ms.m; Z m2 = (m >> (1 + ctx.c.index(3))) + 1; // a smaller modulus for the interleaved requests
+  uint64_t seed = ctx.c.seed64(); rng_seed(seed); QuietCerr quiet;
+  size_t rounds = ctx.thorough ? 12 : 5; std::string cfg = "ssrandomm_cache m=" + ms.name + " rounds=" + std::to_string(rounds);
+  Case cs(ctx, cfg, seed); ctx.label("randomm-cache");
+  std::vector<uint64_t> h(16, 0); uint64_t N = 0; std::set<std::string> seen; Z r, t;
+  for (size_t rd = 0; rd < rounds; rd++) {
+    static mpz_t cache[TMCG_MAX_SSRANDOMM_CACHE]; mpz_t cmod; size_t avail = 0; size_t n = ctx.c.prob(1, 4) ? TMCG_MAX_SSRANDOMM_CACHE : (size_t)ctx.c.range(1, TMCG_MAX_SSRANDOMM_CACHE);
+    tmcg_mpz_ssrandomm_cache_init(cache, cmod, avail, n, m.get_mpz_t());
+    if (avail != n) { ctx.fail("cache/ssrandomm/avail-after-init", cfg + " n=" + std::to_string(n) + " avail=" + std::to_string(avail)); tmcg_mpz_ssrandomm_cache_done(cache, cmod, avail); return; }
+    size_t draws = n + (size_t)ctx.c.range(0, 3);
+    for (size_t d = 0; d < draws; d++) {
+      bool other = ctx.c.prob(1, 6); const Z &req = other ? m2 : m; r = -1;
+      tmcg_mpz_ssrandomm_cache(cache, cmod, avail, r.get_mpz_t(), req.get_mpz_t());
+      if (sgn(r) < 0 || r >= req) { ctx.fail(std::string("range/ssrandomm_cache/out-of-range") + (other ? "/other-modulus" : ""), cfg + " seed=" + std::to_string(seed) + " round " + std::to_string(rd) + " draw " + std::to_string(d) + " returned " + zshort(r.get_mpz_t()) + " for a modulus of " + std::to_string(mpz_sizeinbase(req.get_mpz_t(), 2)) + " bits"); tmcg_mpz_ssrandomm_cache_done(cache, cmod, avail); return; }
+      std::string key = r.get_str(62); if (!seen.insert(key).second) { ctx.fail("cache/ssrandomm/value-handed-out-twice", cfg + " seed=" + std::to_string(seed) + " round " + std::to_string(rd) + " draw " + std::to_string(d)); tmcg_mpz_ssrandomm_cache_done(cache, cmod, avail); return; }
+      if (!other) { t = r << 4; mpz_tdiv_q(t.get_mpz_t(), t.get_mpz_t(), m.get_mpz_t()); h[t.get_ui()]++; N++; }
+    }
+    tmcg_mpz_ssrandomm_cache_done(cache, cmod, avail);
+  }
+  std::vector<double> e(16); for (unsigned b = 0; b < 16; b++) { Z lo, hi, t1 = m * b, t2 = m * (b + 1); mpz_cdiv_q_ui(lo.get_mpz_t(), t1.get_mpz_t(), 16); mpz_cdiv_q_ui(hi.get_mpz_t(), t2.get_mpz_t(), 16); Z cnt = hi - lo; e[b] = (double)N * (cnt.get_d() / m.get_d()); }
+  Chi c = chi_exp(h, e); cs.test("uniformity/ssrandomm_cache/m=" + ms.name + "/chi2", "16-buckets", c, c.stat, 15);
+  cs.finish(N);
 }
